@@ -6,7 +6,9 @@
       exactly when the line was accepted.  Stopping the logger returns only after all accepted
       lines are written."
 
-   Observables of one run: the level mask, what every producer submitted (level, text), what
+   Observables of one run: the level mask, whether the logger has the "direction" flag, what
+   every producer submitted (level, text, and the "val" argument of send: [vf i k] for call k of
+   producer i), what
    each submit call returned, the log file after stop() returned (sequence number and text of
    every line, in file order) and whether stop() returned.  All producers have finished before
    stop() is called.  Texts are byte lists; the text of line k of producer i is unique to (i, k)
@@ -23,6 +25,25 @@ Definition prog := list (Z * text).            (* one producer: (level, text) pe
 
 Definition enabled (mask : Z) (lev : Z) : bool := Z.testbit mask lev.   (* _levels & level *)
 
+(* the "val" argument of call k of producer i *)
+Definition valfn := nat -> nat -> Z.
+
+(* "Consecutive sequence numbers".  A logger without the direction flag numbers its lines
+   1, 2, 3, ... in file order, whatever val the lines were submitted with.  A logger WITH the
+   direction flag keeps two independent series (as a session's protocol log does for inbound and
+   outbound messages): a line submitted with val <> 0 is marked " in" and carries the next number
+   of the inbound series, a line submitted with val = 0 is marked "out" and carries the next
+   number of the outbound series; each series is 1, 2, 3, ... in file order.
+   What stands in a file line behind the sequence field and its delimiter: with the direction
+   flag the direction field and a blank, then the text; without it the text. *)
+Definition tag (v : Z) : text := if Z.eqb v 0 then [111; 117; 116]%Z else [32; 105; 110]%Z.   (* "out" / " in" *)
+Definition rest (d : bool) (v : Z) (t : text) : text := if d then tag v ++ 32%Z :: t else t.
+Definition starts_in (r : text) : bool :=
+  match r with
+  | a :: b :: c :: _ => Z.eqb a 32 && Z.eqb b 105 && Z.eqb c 110
+  | _ => false
+  end.
+
 Fixpoint text_eqb (a b : text) : bool :=
   match a, b with
   | [], [] => true
@@ -30,12 +51,23 @@ Fixpoint text_eqb (a b : text) : bool :=
   | _, _ => false
   end.
 
-(* the lines of one producer that must be written, in submission order *)
-Definition must_write (mask : Z) (p : prog) : list text :=
-  map snd (filter (fun l => enabled mask (fst l)) p).
+(* what must stand in the file for one producer (calls numbered from k), in submission order *)
+Fixpoint must_write (d : bool) (mask : Z) (vf : valfn) (i k : nat) (p : prog) : list text :=
+  match p with
+  | [] => []
+  | (lev, t) :: r =>
+      if enabled mask lev then rest d (vf i k) t :: must_write d mask vf i (S k) r
+      else must_write d mask vf i (S k) r
+  end.
+
+Fixpoint must_all (d : bool) (mask : Z) (vf : valfn) (i : nat) (ps : list prog) : list (list text) :=
+  match ps with
+  | [] => []
+  | p :: more => must_write d mask vf i O p :: must_all d mask vf (S i) more
+  end.
 
 Record obs := { o_rets : list (list bool);         (* per producer, per submit call *)
-                o_file : list (nat * text);         (* sequence number, text *)
+                o_file : list (nat * text);         (* sequence number, rest of the line *)
                 o_stopped : bool }.
 
 (* sequence numbers are 1, 2, 3, ... in file order *)
@@ -44,6 +76,17 @@ Fixpoint seq_ok (n : nat) (f : list (nat * text)) : bool :=
   | [] => true
   | (s, _) :: t => Nat.eqb s n && seq_ok (S n) t
   end.
+
+(* with the direction flag: the " in" lines and the other lines each carry 1, 2, 3, ... *)
+Fixpoint seq_ok_dir (si so : nat) (f : list (nat * text)) : bool :=
+  match f with
+  | [] => true
+  | (s, r) :: t => if starts_in r then Nat.eqb s (S si) && seq_ok_dir (S si) so t
+                   else Nat.eqb s (S so) && seq_ok_dir si (S so) t
+  end.
+
+Definition numbers_ok (d : bool) (f : list (nat * text)) : bool :=
+  if d then seq_ok_dir O O f else seq_ok 1 f.
 
 (* consume the file line by line: each line must be the NEXT not yet written line of some
    producer (this is "exactly once" + "in submission order" + "only enabled levels" + "only
@@ -64,14 +107,14 @@ Fixpoint strike_all (f : list (nat * text)) (rest : list (list text)) : option (
   end.
 
 (* what is written is legitimate: order, exactly-once, levels, sequence numbers *)
-Definition file_sound (mask : Z) (ps : list prog) (o : obs) : bool :=
-  seq_ok 1 (o_file o) &&
-  match strike_all (o_file o) (map (must_write mask) ps) with Some _ => true | None => false end.
+Definition file_sound (d : bool) (mask : Z) (vf : valfn) (ps : list prog) (o : obs) : bool :=
+  numbers_ok d (o_file o) &&
+  match strike_all (o_file o) (must_all d mask vf O ps) with Some _ => true | None => false end.
 
 (* nothing accepted is missing once stop() has returned *)
-Definition file_complete (mask : Z) (ps : list prog) (o : obs) : bool :=
+Definition file_complete (d : bool) (mask : Z) (vf : valfn) (ps : list prog) (o : obs) : bool :=
   o_stopped o &&
-  match strike_all (o_file o) (map (must_write mask) ps) with
+  match strike_all (o_file o) (must_all d mask vf O ps) with
   | Some rest => forallb (fun l => match l with [] => true | _ => false end) rest
   | None => false
   end.
@@ -91,5 +134,5 @@ Fixpoint rets_ok (mask : Z) (ps : list prog) (rs : list (list bool)) : bool :=
   | _, _ => false
   end.
 
-Definition c28_ok (mask : Z) (ps : list prog) (o : obs) : bool :=
-  file_sound mask ps o && file_complete mask ps o && rets_ok mask ps (o_rets o).
+Definition c28_ok (d : bool) (mask : Z) (vf : valfn) (ps : list prog) (o : obs) : bool :=
+  file_sound d mask vf ps o && file_complete d mask vf ps o && rets_ok mask ps (o_rets o).
